@@ -173,11 +173,11 @@ example : replyOf (processList {} 1 [] none) demo =
     replyOf (processList {} 1 [] none) (hideChannel (str "#sec") demo) :=
   list_hides_secret {} demo demo_inv (str "#sec") demoSec rfl rfl 1 []
 example : replyOf (processList {} 1 [] none) demo =
-    [str ":irc.irc 321 alice Channel :Users  Name", str ":irc.irc 322 alice #pub 2 :",
-     str ":irc.irc 322 alice #oth 2 :", str ":irc.irc 323 alice :End of /LIST"] := by decide
+    [(str ":irc.irc " ++ Reply.RplListStart321 (client := str "alice")), (str ":irc.irc " ++ Reply.RplList322 (client := str "alice") (channel := str "#pub") (client_count := 2) (topic := str "")),
+     (str ":irc.irc " ++ Reply.RplList322 (client := str "alice") (channel := str "#oth") (client_count := 2) (topic := str "")), (str ":irc.irc " ++ Reply.RplListEnd323 (client := str "alice"))] := by decide
 example : replyOf (processList {} 1 [str "#sec", str "#pub"] none) demo =
-    [str ":irc.irc 321 alice Channel :Users  Name", str ":irc.irc 322 alice #pub 2 :",
-     str ":irc.irc 323 alice :End of /LIST"] := by decide
+    [(str ":irc.irc " ++ Reply.RplListStart321 (client := str "alice")), (str ":irc.irc " ++ Reply.RplList322 (client := str "alice") (channel := str "#pub") (client_count := 2) (topic := str "")),
+     (str ":irc.irc " ++ Reply.RplListEnd323 (client := str "alice"))] := by decide
 
 /-! ## 2. NAMES -/
 
@@ -193,12 +193,12 @@ example : replyOf (processNames {} 1 []) demo =
   names_hides_secret_all {} demo demo_inv (str "#sec") demoSec rfl rfl 1 demo_outside
 example : replyOf (processNames {} 1 []) demo =
     [str ":irc.irc 353 alice = #pub :~alice bob", str ":irc.irc 353 alice = #oth :bob",
-     str ":irc.irc 366 alice * :End of /NAMES list"] := by decide
+     (str ":irc.irc " ++ Reply.RplEndOfNames366 (client := str "alice") (channel := str "*"))] := by decide
 /-- a member (bob, connection 2) does see the secret channel: the hypothesis `Outside` matters -/
 example : replyOf (processNames {} 2 []) demo =
     [str ":irc.irc 353 bob = #pub :~alice bob", str ":irc.irc 353 bob @ #sec :~bob carol",
      str ":irc.irc 353 bob = #oth :~carol bob",
-     str ":irc.irc 366 bob * :End of /NAMES list"] := by decide
+     (str ":irc.irc " ++ Reply.RplEndOfNames366 (client := str "bob") (channel := str "*"))] := by decide
 
 /-- `NAMES a,b,..` (explicit, non-empty list) for names other than `X`: same answer with and
     without `X`.  (Needs nothing about the observer or the invariant.) -/
@@ -208,8 +208,8 @@ theorem names_explicit_other (cfg : Cfg) (w : World) (X : Str) (c : Nat) (chs : 
   (processNames_other_sim cfg c X chs hne hX (simC X w)).direct
 
 example : replyOf (processNames {} 1 [str "#pub", str "#nope"]) demo =
-    [str ":irc.irc 353 alice = #pub :~alice bob", str ":irc.irc 366 alice #pub :End of /NAMES list",
-     str ":irc.irc 366 alice #nope :End of /NAMES list"] := by decide
+    [str ":irc.irc 353 alice = #pub :~alice bob", (str ":irc.irc " ++ Reply.RplEndOfNames366 (client := str "alice") (channel := str "#pub")),
+     (str ":irc.irc " ++ Reply.RplEndOfNames366 (client := str "alice") (channel := str "#nope"))] := by decide
 
 /-- The exact behaviour of the explicit form on ANY list: in the real world the entries naming
     the secret channel are skipped silently, i.e. the answer is the one the world without `X`
@@ -251,7 +251,7 @@ theorem names_explicit_secret_diff (cfg : Cfg) (w : World) (X : Str) (C : Channe
 
 example : replyOf (processNames {} 1 [str "#sec"]) demo = [] ∧
     replyOf (processNames {} 1 [str "#sec"]) (hideChannel (str "#sec") demo) =
-      [str ":irc.irc 366 alice #sec :End of /NAMES list"] := by decide
+      [(str ":irc.irc " ++ Reply.RplEndOfNames366 (client := str "alice") (channel := str "#sec"))] := by decide
 
 /-- The full statement one would like for the explicit form; it is FALSE
     (`names_hides_secret_explicit_full_false` below). -/
@@ -280,16 +280,16 @@ example (m : Str) : replyOf (processWho {} 1 m) demo =
     replyOf (processWho {} 1 m) (hideChannel (str "#sec") demo) :=
   who_hides_secret {} demo demo_inv (str "#sec") demoSec rfl rfl 1 demo_outside m
 example : replyOf (processWho {} 1 (str "#sec")) demo =
-    [str ":irc.irc 315 alice #sec :End of WHO list"] := by decide
+    [(str ":irc.irc " ++ Reply.RplEndOfWho315 (client := str "alice") (mask := str "#sec"))] := by decide
 example : replyOf (processWho {} 1 (str "#pub")) demo =
-    [str ":irc.irc 352 alice #pub ~alice h irc.irc alice H~ :0 R",
-     str ":irc.irc 352 alice #pub ~bob h irc.irc bob H :0 R",
-     str ":irc.irc 315 alice #pub :End of WHO list"] := by decide
+    [(str ":irc.irc " ++ Reply.RplWhoReply352 (client := str "alice") (channel := str "#pub") (username := str "alice") (host := str "h") (server := str "irc.irc") (nick := str "alice") (flags := str "H~") (hopcount := 0) (realname := str "R")),
+     (str ":irc.irc " ++ Reply.RplWhoReply352 (client := str "alice") (channel := str "#pub") (username := str "bob") (host := str "h") (server := str "irc.irc") (nick := str "bob") (flags := str "H") (hopcount := 0) (realname := str "R")),
+     (str ":irc.irc " ++ Reply.RplEndOfWho315 (client := str "alice") (mask := str "#pub"))] := by decide
 /-- a member gets the member list -/
 example : replyOf (processWho {} 2 (str "#sec")) demo =
-    [str ":irc.irc 352 bob #sec ~bob h irc.irc bob H~ :0 R",
-     str ":irc.irc 352 bob #sec ~carol h irc.irc carol H :0 R",
-     str ":irc.irc 315 bob #sec :End of WHO list"] := by decide
+    [(str ":irc.irc " ++ Reply.RplWhoReply352 (client := str "bob") (channel := str "#sec") (username := str "bob") (host := str "h") (server := str "irc.irc") (nick := str "bob") (flags := str "H~") (hopcount := 0) (realname := str "R")),
+     (str ":irc.irc " ++ Reply.RplWhoReply352 (client := str "bob") (channel := str "#sec") (username := str "carol") (host := str "h") (server := str "irc.irc") (nick := str "carol") (flags := str "H") (hopcount := 0) (realname := str "R")),
+     (str ":irc.irc " ++ Reply.RplEndOfWho315 (client := str "bob") (mask := str "#sec"))] := by decide
 
 /-! ## 4. WHOIS -/
 
@@ -307,10 +307,10 @@ example (masks : List Str) : replyOf (processWhois {} 1 none masks) demo =
   whois_hides_secret {} demo demo_inv (str "#sec") demoSec rfl rfl 1 demo_outside masks
 /-- bob is on `#pub`, `#sec`, `#oth`; alice's WHOIS shows only the two public ones -/
 example : replyOf (processWhois {} 1 none [str "b*"]) demo =
-    [str ":irc.irc 311 alice bob ~bob h * :R", str ":irc.irc 312 alice bob irc.irc :This is IRC server",
+    [(str ":irc.irc " ++ Reply.RplWhoIsUser311 (client := str "alice") (nick := str "bob") (username := str "bob") (host := str "h") (realname := str "R")), (str ":irc.irc " ++ Reply.RplWhoIsServer312 (client := str "alice") (nick := str "bob") (server := str "irc.irc") (server_info := str "This is IRC server")),
      str ":irc.irc 319 alice bob :#pub #oth",
-     str ":irc.irc 317 alice bob 0 0 :seconds idle, signon time",
-     str ":irc.irc 318 alice b* :End of /WHOIS list"] := by decide
+     (str ":irc.irc " ++ Reply.RplwhoIsIdle317 (client := str "alice") (nick := str "bob") (secs := 0) (signon := 0)),
+     (str ":irc.irc " ++ Reply.RplEndOfWhoIs318 (client := str "alice") (nick := str "b*"))] := by decide
 
 /-! ## 5. an outsider cannot speak into a secret channel -/
 
@@ -348,9 +348,9 @@ example : (processPrivmsgNotice {} 2 [str "#sec"] (str "hi") false { w := demo }
 /-- Oddity outside the letter of C12 (PRIVMSG is not one of the four queries): the sender's error
     reply distinguishes a secret channel (404) from a non-existent one (403). -/
 example : replyOf (processPrivmsgNotice {} 1 [str "#sec"] (str "hi") false) demo =
-      [str ":irc.irc 404 alice #sec :Cannot send to channel"] ∧
+      [(str ":irc.irc " ++ Reply.ErrCannotSendToChain404 (client := str "alice") (channel := str "#sec"))] ∧
     replyOf (processPrivmsgNotice {} 1 [str "#sec"] (str "hi") false) (hideChannel (str "#sec") demo) =
-      [str ":irc.irc 403 alice #sec :No such channel"] := by decide
+      [(str ":irc.irc " ++ Reply.ErrNoSuchChannel403 (client := str "alice") (channel := str "#sec"))] := by decide
 
 /-- one target, seen at the level of `privmsgTarget`: nothing queued, "not delivered", and the
     sender gets 404 (PRIVMSG) or nothing (NOTICE) -/
@@ -379,18 +379,18 @@ example (m : Str) : replyOf (processWho {} 1 m) demo =
   who_hides_invisible {} demo demo_inv (str "carol") demoCarol rfl rfl 1 demo_stranger m
 /-- `#oth` = {carol (+i), bob}: alice sees only bob, by channel name, by nick, by wildcard -/
 example : replyOf (processWho {} 1 (str "#oth")) demo =
-    [str ":irc.irc 352 alice #oth ~bob h irc.irc bob H :0 R",
-     str ":irc.irc 315 alice #oth :End of WHO list"] := by decide
+    [(str ":irc.irc " ++ Reply.RplWhoReply352 (client := str "alice") (channel := str "#oth") (username := str "bob") (host := str "h") (server := str "irc.irc") (nick := str "bob") (flags := str "H") (hopcount := 0) (realname := str "R")),
+     (str ":irc.irc " ++ Reply.RplEndOfWho315 (client := str "alice") (mask := str "#oth"))] := by decide
 example : replyOf (processWho {} 1 (str "carol")) demo =
-    [str ":irc.irc 315 alice carol :End of WHO list"] := by decide
+    [(str ":irc.irc " ++ Reply.RplEndOfWho315 (client := str "alice") (mask := str "carol"))] := by decide
 example : replyOf (processWho {} 1 (str "*")) demo =
-    [str ":irc.irc 352 alice * ~alice h irc.irc alice H :0 R",
-     str ":irc.irc 352 alice * ~bob h irc.irc bob H :0 R",
-     str ":irc.irc 315 alice * :End of WHO list"] := by decide
+    [(str ":irc.irc " ++ Reply.RplWhoReply352 (client := str "alice") (channel := str "*") (username := str "alice") (host := str "h") (server := str "irc.irc") (nick := str "alice") (flags := str "H") (hopcount := 0) (realname := str "R")),
+     (str ":irc.irc " ++ Reply.RplWhoReply352 (client := str "alice") (channel := str "*") (username := str "bob") (host := str "h") (server := str "irc.irc") (nick := str "bob") (flags := str "H") (hopcount := 0) (realname := str "R")),
+     (str ":irc.irc " ++ Reply.RplEndOfWho315 (client := str "alice") (mask := str "*"))] := by decide
 /-- bob shares a channel with carol and sees her -/
 example : replyOf (processWho {} 2 (str "carol")) demo =
-    [str ":irc.irc 352 bob * ~carol h irc.irc carol H :0 R",
-     str ":irc.irc 315 bob carol :End of WHO list"] := by decide
+    [(str ":irc.irc " ++ Reply.RplWhoReply352 (client := str "bob") (channel := str "*") (username := str "carol") (host := str "h") (server := str "irc.irc") (nick := str "carol") (flags := str "H") (hopcount := 0) (realname := str "R")),
+     (str ":irc.irc " ++ Reply.RplEndOfWho315 (client := str "bob") (mask := str "carol"))] := by decide
 
 /-- WHOIS with any list of nicks / masks: same with and without `v`. -/
 theorem whois_hides_invisible (cfg : Cfg) (w : World) (v : Str) (vu : User)
@@ -404,7 +404,7 @@ example (masks : List Str) : replyOf (processWhois {} 1 none masks) demo =
     replyOf (processWhois {} 1 none masks) (hideUser (str "carol") demo) :=
   whois_hides_invisible {} demo (str "carol") demoCarol rfl rfl 1 demo_stranger masks
 example : replyOf (processWhois {} 1 none [str "carol", str "c*"]) demo =
-    [str ":irc.irc 318 alice carol,c* :End of /WHOIS list"] := by decide
+    [(str ":irc.irc " ++ Reply.RplEndOfWhoIs318 (client := str "alice") (nick := str "carol,c*"))] := by decide
 
 /-- NAMES, both forms (`chs = []` is the no-argument form, otherwise the explicit list, which may
     name channels `v` is on): same with and without `v`. -/
@@ -420,7 +420,7 @@ example (chs : List Str) : replyOf (processNames {} 1 chs) demo =
     replyOf (processNames {} 1 chs) (hideUser (str "carol") demo) :=
   names_hides_invisible {} demo demo_inv (str "carol") demoCarol rfl rfl 1 demo_stranger chs
 example : replyOf (processNames {} 1 [str "#oth"]) demo =
-    [str ":irc.irc 353 alice = #oth :bob", str ":irc.irc 366 alice #oth :End of /NAMES list"] := by
+    [str ":irc.irc 353 alice = #oth :bob", (str ":irc.irc " ++ Reply.RplEndOfNames366 (client := str "alice") (channel := str "#oth"))] := by
   decide
 
 /-! ### what is NOT hidden about an invisible user
@@ -439,11 +439,11 @@ theorem list_hides_invisible_full_false : ¬ list_hides_invisible_full := by
   exact absurd this (by decide)
 
 example : replyOf (processList {} 1 [str "#oth"] none) demo =
-      [str ":irc.irc 321 alice Channel :Users  Name", str ":irc.irc 322 alice #oth 2 :",
-       str ":irc.irc 323 alice :End of /LIST"] ∧
+      [(str ":irc.irc " ++ Reply.RplListStart321 (client := str "alice")), (str ":irc.irc " ++ Reply.RplList322 (client := str "alice") (channel := str "#oth") (client_count := 2) (topic := str "")),
+       (str ":irc.irc " ++ Reply.RplListEnd323 (client := str "alice"))] ∧
     replyOf (processList {} 1 [str "#oth"] none) (hideUser (str "carol") demo) =
-      [str ":irc.irc 321 alice Channel :Users  Name", str ":irc.irc 322 alice #oth 1 :",
-       str ":irc.irc 323 alice :End of /LIST"] := by decide
+      [(str ":irc.irc " ++ Reply.RplListStart321 (client := str "alice")), (str ":irc.irc " ++ Reply.RplList322 (client := str "alice") (channel := str "#oth") (client_count := 1) (topic := str "")),
+       (str ":irc.irc " ++ Reply.RplListEnd323 (client := str "alice"))] := by decide
 
 /-! ### the reading "`v` never connected": channels only `v` was on do not exist either
 
@@ -532,11 +532,11 @@ theorem demo2_stranger : Stranger demo2 1 (str "dave") demoDave :=
 
 /-- public lone channel: `NAMES #solo` is the bare 366 line in all three worlds -/
 example : replyOf (processNames {} 1 [str "#solo"]) demo2 =
-      [str ":irc.irc 366 alice #solo :End of /NAMES list"] ∧
+      [(str ":irc.irc " ++ Reply.RplEndOfNames366 (client := str "alice") (channel := str "#solo"))] ∧
     replyOf (processNames {} 1 [str "#solo"]) (hideUser (str "dave") demo2) =
-      [str ":irc.irc 366 alice #solo :End of /NAMES list"] ∧
+      [(str ":irc.irc " ++ Reply.RplEndOfNames366 (client := str "alice") (channel := str "#solo"))] ∧
     replyOf (processNames {} 1 [str "#solo"]) (dropChannel (str "#solo") (hideUser (str "dave") demo2)) =
-      [str ":irc.irc 366 alice #solo :End of /NAMES list"] := by decide
+      [(str ":irc.irc " ++ Reply.RplEndOfNames366 (client := str "alice") (channel := str "#solo"))] := by decide
 
 example (chs : List Str) (h : (str "#den") ∉ chs) :
     replyOf (processNames {} 1 chs) demo2 =
